@@ -19,7 +19,7 @@ CHECKS = {
     "C03": ("exploration",
             "grammar-based mutation of valid HTTP/1.1 request streams and of HTTP/2 header lists / frame sequences through a live worker; differential oracle: a strict RFC 9112 reader plus 14 permissive reader variants must agree on what each backend connection received, and it must be what sozu stamped",
             "Generated pipelined request streams (Content-Length / chunked bodies, embedded request text in bodies) are mutated by 19 smuggling mutators (CL/TE conflicts and variants, duplicate and malformed lengths, bare LF/CR, obs-fold, whitespace before colon, invalid bytes in names/values, chunk extensions and sizes, HTTP/1.0 + TE, ...) plus byte-level mutations and sent at generated segmentations through a live worker to recording backends of two clusters. Oracle on the bytes each backend connection received: accepted by the strict reader with all variants agreeing on boundaries; every request found carries exactly one Sozu-Id (was emitted by sozu as a head), the routed cluster's host, method/target/body equal to the client message with that marker; no CR/LF/NUL/CTL in forwarded values, every forwarded field is the client's or one of sozu's documented additions; the client receives a readable response sequence with no response delivered twice. An in-process sub-check guards the readers themselves.",
-            "Sub-check h2smuggle covers the HTTP/2 frontend: 1..4 streams of one TLS/h2 connection toward recording keep-alive HTTP/1.1 backends, valid requests plus 0..2 of 19 mutation families (content-length against DATA in every END_STREAM placement, duplicate / malformed content-length, transfer-encoding, connection-specific fields, forbidden bytes in names and values, pseudo-header order / duplication / content, :path and :method injections, trailers carrying framing fields, bodies that look like requests), written in generated pieces with CONTINUATION splits and padding; same reader-agreement oracle plus marker, method/target/host, body = DATA sent, no injected line, and every answer belongs to its own stream. h2c backends and frame-level faults are left to C13 / C15; CONNECT / Upgrade / Expect are not generated; no coverage-guided byte fuzzer for this property. Known findings excluded by construction with strict reproducers: seven HTTP/1.1 shapes (mostly in the kawa parser) and HTTP/2 :path bytes above 0x7f.",
+            "Sub-check h2smuggle covers the HTTP/2 frontend: 1..4 streams of one TLS/h2 connection toward recording keep-alive HTTP/1.1 backends, valid requests plus 0..2 of 19 mutation families (content-length against DATA in every END_STREAM placement, duplicate / malformed content-length, transfer-encoding, connection-specific fields, forbidden bytes in names and values, pseudo-header order / duplication / content, :path and :method injections, trailers carrying framing fields, bodies that look like requests), written in generated pieces with CONTINUATION splits and padding; same reader-agreement oracle plus marker, method/target/host, body = DATA sent, no injected line, and every answer belongs to its own stream. h2c backends and frame-level faults are left to C13 / C15; CONNECT / Upgrade / Expect are not generated; no coverage-guided byte fuzzer for this property. Known findings excluded by construction with strict reproducers: seven HTTP/1.1 shapes (mostly in the kawa parser); three HTTP/2 shapes found by h2smuggle were repaired in sozu.",
             "DESIGN.md §4 C03"),
     "C13": ("exploration",
             "generated header-list search in a wire lab with an exact field-by-field oracle on what the backend received and what the client received",
